@@ -302,6 +302,39 @@ def extra_variants(chk, rnd):
                 if back != s or facts != (bare, rounds, size) or not ok:
                     chk.violation("sun_md5_crypt:variant:roundtrip", f"sun_md5_crypt(bare_salt={bare}, rounds={rounds}, salt_size={size}) made {s}; re-rendered {back}; parsed (bare, rounds, salt size) = {facts}; verifies: {ok}",
                                   {"hash": s, "rendered": back, "parsed": list(facts)})
+    # fshp: the variant given to using() - as a number, a digit string or an algorithm name - is the one a hash carries
+    for v, num in ((0, 0), (1, 1), (2, 2), (3, 3), ("0", 0), ("3", 3), ("sha1", 0), ("sha256", 1), ("sha384", 2), ("sha512", 3)):
+        chk.count(("fshp-variant", str(v)))
+        chk.action("roundtrip")
+        try:
+            s = H.fshp.using(variant=v, rounds=1).hash(PW)
+            ph = H.fshp.parsehash(s)
+            ok = s.startswith("{FSHP%d|" % num) and H.fshp.from_string(s).variant == num and H.fshp.from_string(s).to_string() == s and H.fshp.verify(PW, s)
+        except Exception as ex:
+            chk.violation(f"fshp:variant:{type(ex).__name__}", f"fshp.using(variant={v!r}) raised {type(ex).__name__}: {ex}", {"variant": v})
+            continue
+        if not ok:
+            chk.violation("fshp:variant:not-carried", f"fshp.using(variant={v!r}).hash() gives {s[:20]}.., which does not carry variant {num}", {"variant": v, "hash": s, "parsehash": str(ph)})
+    # libpass PHC records at the size limits of the format (salt 11..64 characters, hash 16..86 characters): inspect, render, compare
+    try:
+        import base64 as _b64
+        from libpass.inspect.phc import inspect_phc
+        from libpass.inspect.phc.defs import Argon2PHC, BcryptSHA256PHCV2
+        def b64n(n):
+            return _b64.b64encode(bytes(range(n))).decode().rstrip("=")
+        for sl, hl in ((8, 12), (9, 13), (16, 32), (47, 63), (48, 64), (8, 64), (48, 12), (33, 48)):
+            text = f"$argon2id$v=19$m=65536,t=3,p=4${b64n(sl)}${b64n(hl)}"
+            chk.count(("phc", sl, hl))
+            chk.action("libpass-inspect")
+            try:
+                rec = inspect_phc(text, Argon2PHC)
+                back = rec.as_str() if rec is not None else None
+            except Exception as ex:
+                back = f"{type(ex).__name__}: {ex}"
+            if back != text:
+                chk.violation("libpass:inspect_phc:boundary", f"a PHC record with a {len(b64n(sl))}-character salt and a {len(b64n(hl))}-character hash: inspect_phc / as_str give {back!r}", {"text": text})
+    except ImportError as ex:
+        chk.uncovered.append(f"libpass PHC: {ex}")
     # scrypt: both idents over the whole range of the r and p fields (30-bit integers in the $7$ spelling); constructed, not hashed
     vals = [1, 2, 63, 64, 65, 4095, 4096, 2 ** 12 + 1, 2 ** 18 - 1, 2 ** 18, 2 ** 18 + 5, 2 ** 24 - 1, 2 ** 24, 2 ** 29 + 12345]
     for ident in ("$7$", "$scrypt$"):
